@@ -66,6 +66,7 @@ func targeted() {
 	failedStartKeepsWrites()
 	wrappedNestedFailures()
 	deepReturn()
+	wasiExitStage()
 }
 
 // failedStartKeepsWrites: an instantiation that fails in its START function has already applied its active element
